@@ -383,3 +383,7 @@ package openapi3
 //@   modifies *
 //@   preserves all(openapi3), openapi3filter.ResponseValidationInput.Body
 //@   defines (result == nil) <==> visitOK(schema, value)
+//@ func DefaultsSet
+//@   modifies nothing
+//@ func SetSchemaRegexCompiler
+//@   modifies nothing
